@@ -153,6 +153,9 @@ def r23c(ctx, P):
                "delete of a document queued by an earlier request and not yet committed)" % (Site(f, b).loc(), extra[0].loc()), Site(f, b).loc())
 
 
+THOROUGH_FEATURES = ['r23c']
+
+
 def run(ctx, progs):
     P = progs.get("default")
     rts = r23a(ctx, P)
